@@ -41,6 +41,11 @@ func NewExt() Ext {
 	return Ext{Markers: map[string]string{}, Fail: map[string]bool{}, SlowSec: map[string]int{}, SkipOut: map[string]int{}, NoEstab: map[string]bool{}, WrongEst: map[string]bool{}, SelfKill: map[string]bool{}}
 }
 
+// tolerateModeSwitch: until the fix "compute the same output hash whether or not a target's result is cached" the
+// model recognised the (then listed) finding C13:dependants-rebuilt-after-cache-mode-switch and let histories continue
+// behind it. The finding is repaired; the recognition is switched off so that a regression is a plain violation again.
+const tolerateModeSwitch = false
+
 type Model struct {
 	Cache  map[string]string // abstract key (strict and loose) -> "good" | "may"
 	Taint  map[string]bool   // label
@@ -215,7 +220,7 @@ func (m *Model) Predict(w WS, o BuildOpts) Prediction {
 		default:
 			v = May
 		}
-		{
+		if tolerateModeSwitch {
 			// (computed for every verdict: a forced target's change hash is affected as well, and if it is
 			// output-less it passes the effect on to its own dependants)
 			for _, d := range w.DirectDeps(t) {
